@@ -64,12 +64,15 @@ CHECKS = {
              "the per-class inventory of _validate* methods (exactly what validate() runs) and the method bodies translated from "
              "the AST into the library's assertion vocabulary (12 context-dependent validators hand-modelled, their AST hashes "
              "regenerated). Coq theorems: C06_vexpr_error_class (the vocabulary raises only TypeError/ValueError) and "
-             "C06_translated_validators_raise_type_or_value_error (side condition on every regenerated body). Tie: for each of "
+             "C06_translated_validators_raise_type_or_value_error (side condition on every regenerated body), C06_validate_iff_rules "
+             "(validate() succeeds iff every flat guarded rule of the translated validators holds and every hand-modelled validator "
+             "succeeds) and C06_regenerated_rules_are_the_documented_ones (class by class, the regenerated validators flatten to "
+             "exactly the rule table written from the documentation in Proofs/SpecRules.v). Tie: for each of "
              "the seven formats, valid objects with one field at any position replaced by a value outside its documented domain "
              "(rule table written from the documentation) are dumped by the real library and by the model; outcome classes are "
              "compared; the oracle demands TypeError/ValueError.",
-        note="Partial: 'dump x = Ok <-> Valid x' against a documentation-derived predicate is decided by the corruption "
-             "correspondence (sampled), not yet by a Coq equivalence theorem. Known findings K4 (element types of arches and "
+        note="Partial: the 12 hand-modelled context-dependent validators are tied to the code by AST hash and the corruption "
+             "correspondence (sampled), not by regeneration. Known findings K4 (element types of arches and "
              "path tables are not validated).",
         design="DESIGN.md section 6 C06"),
     "C07": dict(
@@ -87,11 +90,12 @@ CHECKS = {
              "content at every depth print to the same bytes), C08_reordering_is_same_content (any permutation of a mapping's "
              "entries - insertion order, dict/set iteration order, hash seed - is the same content), C08_sort_canonical (key "
              "sorting of distinct keys is permutation-invariant; via commutation of insertions on a strict total order), "
-             "C08_print_canon. Tie: the same content is constructed in K interleavings and dumped twice in separate interpreter "
+             "C08_print_canon, C08_cell_order_irrelevant (an image cell's written list depends only on which images the set "
+             "holds: insertion sort by path is permutation-invariant for distinct paths). Tie: the same content is constructed in K interleavings and dumped twice in separate interpreter "
              "processes under several PYTHONHASHSEED values for rpms, modules, extra files, images and composeinfo; all byte "
              "sequences must coincide with each other and with the model's.",
-        note="Partial: list-valued positions derived from sets (image cells sorted by path, arches, child id lists) are covered by "
-             "the correspondence, not by a separate Coq theorem; treeinfo's sorted INI output is covered under C04/C17.",
+        note="Partial: arches and child id lists (sorted sets of strings) are covered by "
+             "the correspondence and C08_sort_canonical's lemma family, not by a separately named theorem; treeinfo's sorted INI output is covered under C04/C17.",
         design="DESIGN.md section 6 C08"),
     "C09": dict(
         text="Coq theorems: C09_reach_inv (in every manifest of format >= 1.1 reachable from a fresh one by ANY sequence of add "
